@@ -1045,3 +1045,19 @@ theorem beta_density_second_moment (sp0 : Fn ℝ) (sp : Sp ℝ) (a : Base ℝ) (
   ring
 
 end AF.C17
+
+namespace AF.C17
+open AF.Msg
+
+/-- the convergence hypothesis of the moment-matching theorems in terms of the residual the driver evaluates on every
+generated case: `Converged` holds exactly when `suffResidual` vanishes (Beta), resp. when it vanishes and the
+logarithm is a homomorphism at the one quotient formed (Gamma) -/
+theorem converged_iff_residual_zero {K : Type} [Field K] [LinearOrder K] (fn : Fn K) (sp : Sp K) (m1 m2 : K) :
+    (Converged fn sp .beta m1 m2 ↔ suffResidual fn sp .beta m1 m2 = (0, 0)) ∧
+    (Converged fn sp .gamma m1 m2 ↔
+      (suffResidual fn sp .gamma m1 m2 = (0, 0) ∧ invpsilog fn sp (m1 - fn.log m2) ≠ 0 ∧ m2 ≠ 0 ∧
+        fn.log (invpsilog fn sp (m1 - fn.log m2) / m2) = fn.log (invpsilog fn sp (m1 - fn.log m2)) - fn.log m2)) := by
+  refine ⟨Iff.rfl, ?_⟩
+  simp only [Converged, suffResidual, Prod.mk.injEq, and_true, sub_eq_zero]
+
+end AF.C17
